@@ -159,6 +159,25 @@ CHECKS["C05"] = dict(
     ],
 )
 
+CHECKS["C01"] = dict(
+    level_text="Two depths, both decided by the solver over all inputs inside the bounds: (a) the real doubleWalkDiff (three goroutines, channels, errgroup) on arbitrary parent-closed tree pairs with symbolic stats: applying the emitted change stream to the lower tree yields the upper tree, with exactly one change per differing path; (b) the real Send (on-disk source through NewFS/Walk/mkstat) and the real Receive connected by an in-memory stream on the model file system: whenever both return success the destination equals the source tree (types, bytes, permission/special bits, uid/gid, symlink targets, device numbers, hard-link groups, mtimes of non-directories and created directories) for every source tree and dirty prior destination explored.",
+    level_note="Bounds: (a) universes of 3 (quick) / 4 and 6 (thorough) paths including names that sort differently bytewise and path-wise (a, a/b, a-b), symbolic Mode and Size (plus Uid, ModTime in the FULL variant); (b) source trees over {d, d/f, e, h(hard link), l(symlink), p(fifo/char device)} with symbolic permission/special bits, uid, gid, files of 0..1 symbolic bytes, mtimes from 2 values, prior destination in {empty, stale file, dir where the source has a file, file where the source has a dir, symlink + nested stale content}. Merge mode, xattrs, unprivileged receivers, 32 KiB chunk boundaries and synthetic sources are outside. " + FS_TRUST + BASE_TRUST,
+    assumptions=["one schedule (the stat->diff->writer pipeline is a Kahn network: results, not liveness, are schedule independent)", "mtimes are drawn from a small concrete set so that ns arithmetic stays concrete"],
+    obligations=[
+        ob("VH_C01_diff", dict(U=0), covers=["added", "removed", "unchanged", "modified"], bounds="universe {a, a/b, a-b}"),
+        ob("VH_C01_diff", dict(U=1), covers=["added", "removed", "unchanged", "modified"], bounds="universe {a, a/b, a/b/c}"),
+        ob("VH_C01_diff", dict(U=0, FULL=1), Q, covers=["added", "removed", "unchanged", "modified"], bounds="universe {a, a/b, a-b}, Mode/Size/Uid/ModTime symbolic"),
+        ob("VH_C01_diff", dict(U=2), T, covers=["added", "removed", "unchanged", "modified"], bounds="universe {a, a/b, a-b, b}"),
+        ob("VH_C01_diff", dict(U=3), T, covers=["added", "removed", "unchanged", "modified"], bounds="universe {a, a/b, a/b/c, a0}"),
+        ob("VH_C01_diff", dict(U=5), T, covers=["added", "removed", "unchanged", "modified"], bounds="universe {a, a/b, a/c, a-b, a-b/c, b}"),
+        ob("VH_C01_e2e", dict(S=8, D=5, MAXB=1, NZ=1), Q, covers=["done"], bounds="source {d, d/f, e}, files <=1 byte, every dirty prior destination, non-zero ids", max_steps=5000000),
+        ob("VH_C01_e2e", dict(S=3, D=2, MAXB=1, NZ=1), Q, covers=["done"], bounds="source {d, d/f, h, l}, prior destination empty or stale file, non-zero ids", max_steps=5000000),
+        ob("VH_C01_e2e", dict(S=4, D=1, MAXB=1, NZ=1), Q, covers=["done"], bounds="source {d, d/f, p(fifo/char device)}, fresh destination, non-zero ids", max_steps=5000000),
+        ob("VH_C01_e2e", dict(S=15, D=5, MAXB=1, NZ=1), T, covers=["done"], bounds="source {d, d/f, e, h, l, p}, every dirty prior destination, non-zero ids", max_steps=5000000),
+        ob("VH_C01_e2e", dict(S=8, D=2, MAXB=1, NZ=0), T, covers=["done"], bounds="source {d, d/f, e}, fully symbolic ids", max_steps=5000000),
+    ],
+)
+
 NOT_APPLICABLE = {
     "C08": "quantifies over schedules and includes data-race freedom and non-overlap of stream calls; the hand-written SSA executor runs goroutines under one cooperative schedule and cannot enumerate interleavings or observe races, and no Go engine that can is installed (DESIGN.md §7)",
 }
